@@ -26,6 +26,7 @@ import SwcVerif.Model.AlgoRunAssemble
 import SwcVerif.Model.AlgoRunLMeasure
 import SwcVerif.Model.AlgoRunNodeBranch
 import SwcVerif.Model.AlgoRunMst
+import SwcVerif.Model.AlgoRunParse
 import SwcVerif.Model.Assemble
 
 def dispatch (op : String) (args : List String) : String :=
@@ -70,6 +71,7 @@ def dispatch (op : String) (args : List String) : String :=
   | "glm" => AlgoRun.handleLm args
   | "gtips" | "gnodebranch" | "gnode" => AlgoRun.handleNodeBranch op args
   | "gmst" => AlgoRun.handleMst args
+  | "gparse" => AlgoRun.handleParse args
   | "asm" => Asm.handle args
   | "gasm" => AlgoRun.handleAsm args
   | "swcline" => SwcText.handleLine args
